@@ -28,7 +28,7 @@ C03_OPS = ["eq", "neq", "lt", "le", "gt", "ge", "select", "bool_and", "bool_or",
 
 C02_OPS = ["add", "sub", "mul", "div", "sqrt", "neg", "abs", "copysign", "bitofsign", "nextafter", "bitwise_and", "bitwise_or", "bitwise_xor",
            "bitwise_andnot", "bitwise_not", "fma", "fms", "fnma", "fnms", "min", "max", "isnan", "isinf", "isfinite", "is_flint",
-           "is_even", "is_odd", "sign", "signnz"]
+           "is_even", "is_odd", "sign", "signnz", "ldexp"]
 C08_OPS = ["ceil", "floor", "trunc", "round", "nearbyint", "rint", "nearbyint_as_int"]
 
 C04_OPS = ["load_aligned", "load_unaligned", "store_aligned", "store_unaligned", "broadcast", "bool_load_aligned", "bool_load_unaligned",
@@ -44,10 +44,10 @@ C05_QUICK = ["transpose", "zip_lo", "zip_hi", "swizzle_dyn", "compress", "expand
 
 C09_OPS = ["reduce_add", "reduce_max", "reduce_min", "haddp"]
 
-C16_OPS = ["cadd", "csub", "cneg", "cconj", "creal", "cimag", "ceq", "cneq", "cload_aligned", "cload_unaligned", "cstore_aligned", "cstore_unaligned"]
+C16_OPS = ["cadd", "csub", "cneg", "cconj", "creal", "cimag", "ceq", "cneq", "cmul", "cdiv", "cfma", "cfms", "cfnma", "cfnms", "cload_aligned", "cload_unaligned", "cstore_aligned", "cstore_unaligned"]
 
 PROPS = {
-    "C16": dict(ops=C16_OPS, types=FLOAT_TYPES, design="5.17"),
+    "C16": dict(ops=C16_OPS, quick_ops=[o for o in C16_OPS if not o.startswith("cf")], types=FLOAT_TYPES, design="5.17"),
     "C09": dict(ops=C09_OPS, types=ALL_TYPES, design="5.10"),
     "C05": dict(ops=C05_OPS, quick_ops=C05_QUICK, types=ALL_TYPES, quick_types=["i8", "u16", "i32", "u64", "f32", "f64"], design="5.6", optional=True),
     "C06": dict(ops=C06_OPS, types=ALL_TYPES, design="5.7"),
@@ -167,6 +167,9 @@ def finish(rep, pid, extra_cov=None, level_note=None):
             continue
         if res is not None and res.get("pre") == 1 and res.get("post") == 0:
             verdict = "reproduced"
+            if res.get("attempt", 0) > 0:
+                rec["input_source"] = ("the verifier's counterexample did not fail on the real code; the failing input (native_result.inputs_hex, one entry per "
+                                       "floating operand) was found by the replay driver's native search over special operand values, attempt %d" % res["attempt"])
         elif res is not None and res.get("post") == 1 and is_post and t["mode"] == "concrete":
             verdict = "not_reproduced"
         elif res is None and not meta.get("has_input"):
